@@ -972,6 +972,9 @@ def run_cc(case):
         for name, o in observers:
             if o.stream:
                 S.problem("control_change: events received by the attached %s for a refused control change" % name, [], o.stream)
+    elif isinstance(control, float) or isinstance(value, float):
+        # fractional numbers inside the range: the statement only says what must be refused
+        S.count("cc_fractional_in_range_not_judged")
     else:
         S.count("cc_accepted")
         if not ret:
@@ -983,10 +986,18 @@ def run_cc(case):
     S.outcome((bool(ret), len(seq.stream)))
 
 
+CC_FRACTIONS = [-1.5, -0.5, -0.001, 0.5, 127.5, 128.001, 128.5, 129.5]
+
+
 def gen_cc(control):
     for value in range(CC_LO, CC_HI + 1):
         for channel in (0, 1, 15):
             yield [channel, control, value]
+    # numbers just outside the bounds that are not integers ("below 0 or above 128" is said of numbers)
+    for x in CC_FRACTIONS:
+        yield [1, control, x]
+        if control in (0, 7, 128):
+            yield [1, x, control]
 
 
 # ---------------------------------------------------------------------------------------
